@@ -14,16 +14,20 @@ import (
 )
 
 type dialPlan struct {
+	block  bool
 	ok     bool
 	reply  []byte
 	policy []wpol
 }
 
 type asyncCall struct {
-	tag  string
-	quit chan struct{}
-	done chan error // buffered 1
-	over bool
+	tag      string
+	quit     chan struct{}
+	done     chan error // buffered 1
+	over     bool
+	reported bool
+	closer   bool // Close / Disconnect: reported as "close ok" / "disconnect <class>" when it returns within its own operation
+	fresh    bool
 }
 
 type exchange struct {
@@ -144,6 +148,10 @@ func (p *sessionPort) dialer(ctx context.Context) (net.Conn, error) {
 	if len(p.dials) > 0 {
 		plan = p.dials[0]
 		p.dials = p.dials[1:]
+	}
+	if plan.block {
+		<-ctx.Done()
+		return nil, ctx.Err()
 	}
 	if !plan.ok {
 		p.log.add("ev dial fail")
@@ -276,7 +284,7 @@ func (p *sessionPort) flushParts(extraWaitForTicker bool) ([]string, []string) {
 			break
 		}
 	}
-	var rets []string
+	var rets, closerLines []string
 	for _, c := range p.calls {
 		if c.over {
 			continue
@@ -284,12 +292,23 @@ func (p *sessionPort) flushParts(extraWaitForTicker bool) ([]string, []string) {
 		select {
 		case err := <-c.done:
 			c.over = true
-			rets = append(rets, fmt.Sprintf("ret %s %s", c.tag, classOf(err)))
+			switch {
+			case c.closer && !c.reported && c.tag == "close":
+				closerLines = append(closerLines, "close ok")
+			case c.closer && !c.reported:
+				closerLines = append(closerLines, "disconnect "+classOf(err))
+			case c.closer && c.tag == "close":
+				rets = append(rets, "ret close ok")
+			default:
+				rets = append(rets, fmt.Sprintf("ret %s %s", c.tag, classOf(err)))
+			}
 		default:
+			c.reported = true // did not return within the operation that started it
 		}
 	}
 	sort.Strings(rets)
 	out = append(out, rets...)
+	out = append(out, closerLines...)
 	var late []string
 	// a reader call that finished during another operation
 	if p.reader != nil {
@@ -404,6 +423,10 @@ func (p *sessionPort) exec(f []string) []string {
 	case "dial":
 		if f[1] == "fail" {
 			p.dials = append(p.dials, dialPlan{ok: false})
+			return nil
+		}
+		if f[1] == "block" {
+			p.dials = append(p.dials, dialPlan{ok: true, block: true})
 			return nil
 		}
 		pl := dialPlan{ok: true, reply: unhex(f[2])}
@@ -573,12 +596,32 @@ func (p *sessionPort) exec(f []string) []string {
 			}
 		}
 		return []string{"quit " + f[1] + " unknown"}
-	case "close":
+	case "close", "disconnect":
 		cl := p.client
-		return p.blocking("close", func() []string { cl.Close(); return []string{"close ok"} }, true)
-	case "disconnect":
-		cl := p.client
-		return p.blocking("disconnect", func() []string { return []string{"disconnect " + classOf(cl.Disconnect(nil))} }, true)
+		name := f[0]
+		c := &asyncCall{tag: name, quit: make(chan struct{}), done: make(chan error, 1), closer: true}
+		p.calls = append(p.calls, c)
+		go func() {
+			if name == "close" {
+				c.done <- cl.Close()
+			} else {
+				c.done <- cl.Disconnect(nil)
+			}
+		}()
+		out, late := p.flushParts(true)
+		if !c.over {
+			return append(append(out, "blocked "+name), late...)
+		}
+		return append(out, late...)
+	case "wgo":
+		if p.cur != nil {
+			o := wpol{0, "ok"}
+			if f[1] != "ok" {
+				o = parsePolicy(f[1])[0]
+			}
+			p.cur.openGate(o)
+		}
+		return p.flush(nil, true)
 	case "counters":
 		v := mqtt.VerifCountersOf(p.client)
 		return []string{fmt.Sprintf("ctr acked=%d received=%d completed=%d a1=%d s1=%d a2=%d s2=%d q1=%d q2=%d tx=%d",
